@@ -97,7 +97,7 @@ def c_source_line(repo, relpath, name):
 
 
 class Lowerer:
-    def __init__(self, docs, follow=None, opaque_records=(), stub_records=None, extra_noop=(), rename=None, memberwise=()):
+    def __init__(self, docs, follow=None, opaque_records=(), stub_records=None, extra_noop=(), rename=None, memberwise=(), vdispatch=(), vstatic=()):
         self.docs = docs
         self.repo = os.environ.get('MV_REPO', '/repo')
         self.byid = {}
@@ -110,6 +110,8 @@ class Lowerer:
         # records whose user-written copy constructor / assignment is a memberwise copy (an assumption
         # the caller must discharge or list): copied as plain C struct values
         self.memberwise = set(memberwise)
+        self.vdispatch = set(vdispatch)
+        self.vstatic = set(vstatic)
         self.noop = set(NOOP_CALLS) | set(extra_noop)
         self.done = {}          # func id -> C text
         self.protos = {}        # func id -> prototype
@@ -1265,9 +1267,40 @@ class Lowerer:
         if callee.get('kind') == 'CXXDestructorDecl':
             return '%s(%s)' % (self.want(callee), o)
         if callee.get('kind') == 'CXXConversionDecl' or callee.get('kind') == 'CXXMethodDecl':
+            if self.virtual_opaque(callee):
+                # dynamic dispatch: the target is not known statically -> an opaque dispatcher (DESIGN 2.2 item 8)
+                name = self.fname(d) + '__vcall'
+                if name not in self.externs:
+                    self.externs[name] = self.proto(d).replace(self.fname(d) + '(', name + '(', 1) + ';'
+                if getattr(self, 'cur_name', None):
+                    self.edges.setdefault(self.cur_name, set()).add(name)
+                return self.wrap_ret(d, '%s(%s)' % (name, ', '.join([o] + self.call_args(d, args))))
             name = self.want(callee)
             return self.wrap_ret(d, '%s(%s)' % (name, ', '.join([o] + self.call_args(d, args))))
         raise Unsupported('member call to %s' % callee.get('kind'))
+
+    def is_virtual(self, callee):
+        c = self.canon.get(callee.get('id'), callee.get('id'))
+        for i, cc in self.canon.items():
+            if cc == c and self.byid[i].get('virtual'):
+                return True
+        return bool(callee.get('virtual'))
+
+    def virtual_opaque(self, callee):
+        """clang 14's JSON does not say whether a member call is dispatched dynamically, so the unit says it:
+        vdispatch = methods called through the vtable (opaque dispatcher), vstatic = virtual methods that the
+        lowered code only calls with a class qualifier.  Anything else virtual is refused."""
+        if not self.is_virtual(callee):
+            return False
+        qn = self.qualname(callee).replace('muscle::', '')
+        if qn in self.vdispatch:
+            return True
+        if qn in self.vstatic:
+            return False
+        rec = self.func_record(callee)
+        if rec is not None and any(c.get('kind') == 'FinalAttr' for c in rec.get('inner', []) or []):
+            return False
+        raise Unsupported('call to virtual method %s: the unit must list it under vdispatch or vstatic' % qn)
 
     def operator_call(self, n, ch):
         callee, _ = self.callee_decl(ch[0])
